@@ -44,6 +44,12 @@ func bulkHandler(bulkerFactory bulking.BulkerFactory, bulkHandlerFactories map[s
 				Atomic:            api.QueryParamBool(r, "atomic"),
 				Parallel:          api.QueryParamBool(r, "parallel"),
 				SchemaVersion:     schemaVersion,
+				InputError: func() error {
+					if streamed, ok := bulkHandler.(interface{ StreamError() error }); ok {
+						return streamed.StreamError()
+					}
+					return nil
+				},
 			},
 		)
 		if err != nil {
